@@ -197,6 +197,20 @@ def dom_ok(mdom, d, name):
     return False
 
 
+def canon_v(v):
+    """a dumped value without its position"""
+    t = v["t"]
+    if t == "c":
+        return ("c", v["v"], v["d"])
+    if t == "s":
+        return ("s", v["v"])
+    if t == "q":
+        return ("q", tuple(canon_v(x) for x in v["v"]))
+    if t == "die":
+        return ("die", v["off"])
+    return (t,)
+
+
 def run(ctx):
     oblig = common.prepare(ctx)
     if oblig is None:
@@ -214,6 +228,17 @@ def run(ctx):
     total = 0
     for version in (2, 3, 4, 5):
         unit, tests = build(version)
+        # every value also read through two links (DW_AT_abstract_origin -> DW_AT_specification -> the DIE
+        # that stores it): `@AT_x` must decode it in the context of the DIE that stores it
+        readers = []
+        for die, a, c in tests:
+            if a.name in ("DW_AT_specification", "DW_AT_abstract_origin", "DW_AT_sibling", "DW_AT_declaration") or not a.name.startswith("DW_AT_"):
+                readers.append(None)
+                continue
+            r1 = Die("DW_TAG_variable", [Attr("DW_AT_specification", "DW_FORM_ref4", die)])
+            r2 = Die("DW_TAG_variable", [Attr("DW_AT_abstract_origin", "DW_FORM_ref4", r1)])
+            unit.root.children += [r1, r2]
+            readers.append(r2)
         f = Forest([unit])
         dwforest.fix_small_refs(f)
         path = os.path.join(d, "c07-v%d.o" % version)
@@ -231,6 +256,21 @@ def run(ctx):
         if len(mres) != len(mlines):
             raise RuntimeError("zwmodel atval: %d answers for %d" % (len(mres), len(mlines)))
         ires = zw.run_cases(qlines)
+        # the same values through the two-link chains
+        cq = [(i, zw.enc("entry ?(offset == %d) [@%s]" % (rd.off, tests[i][1].name[3:]), dw=path, t=30)) for i, rd in enumerate(readers) if rd is not None]
+        cres = zw.run_cases([q for _, q in cq])
+        for (i, _), rc in zip(cq, cres):
+            die, a, c = tests[i]
+            r = ires[i]
+            if rc.compile_error is not None:
+                continue                 # no such word (vendor attribute)
+            evaluations += 1
+            direct = ([canon_v(v) for v in r.results[0][0]["v"]] if r.results else None, bool(r.d.get("hard")))
+            chained = ([canon_v(v) for v in rc.results[0][0]["v"]] if rc.results else None, bool(rc.d.get("hard")))
+            if rc.crash or direct != chained:
+                bad("chain:" + a.name, "%s (%s) = %s stored on a %s [type context %s, DWARF %d]: read through abstract_origin -> specification `@%s` gives %s, the attribute itself gives %s"
+                    % (a.name, a.form, a.value.off if isinstance(a.value, Die) else a.value, die.tag, c, version, a.name[3:], rc.crash or str(chained)[:150], str(direct)[:150]),
+                    {"attribute": a.name, "form": a.form, "context": c, "version": version, "die": die.off, "reader": readers[i].off, "file": path})
         for (die, a, c), m, r in zip(tests, mres, ires):
             evaluations += 1
             total += 1
@@ -289,7 +329,7 @@ def run(ctx):
     common.report_broken_obligations(ctx, oblig, bool(ctx.violations))
     ctx.cov.update({
         "evaluations": evaluations, "distinct_nontrivial": total,
-        "rule": "four generated units (DWARF 2, 3, 4, 5), one DIE per combination: DW_AT_const_value x 24 type contexts (10 base types incl. every interpreted and uninterpreted encoding and one without encoding, typedef/const/volatile/restrict chains, pointer, pointer to member, decltype(nullptr), structure, no type, 6 enumerations with/without underlying type and with sdata/udata/mixed/plain enumerators) x forms data1/2/4/8 at 8 boundary values each, sdata (11 values), udata (9), block1 of length 0,1,2,3,4,8, implicit_const (DWARF 5); enumerators of each enumeration; 13 enumerated attributes, line/column and 19 numeric attributes (signed, unsigned, section offsets, vendor range, uninterpreted) x 9 form/value pairs; strings with quote/backslash/control/high bytes in string and strp; flags; addresses; 6 reference forms; locations",
+        "rule": "four generated units (DWARF 2, 3, 4, 5), one DIE per combination: DW_AT_const_value x 24 type contexts (10 base types incl. every interpreted and uninterpreted encoding and one without encoding, typedef/const/volatile/restrict chains, pointer, pointer to member, decltype(nullptr), structure, no type, 6 enumerations with/without underlying type and with sdata/udata/mixed/plain enumerators) x forms data1/2/4/8 at 8 boundary values each, sdata (11 values), udata (9), block1 of length 0,1,2,3,4,8, implicit_const (DWARF 5); enumerators of each enumeration; 13 enumerated attributes, line/column and 19 numeric attributes (signed, unsigned, section offsets, vendor range, uninterpreted) x 9 form/value pairs; strings with quote/backslash/control/high bytes in string and strp; flags; addresses; 6 reference forms; locations; every one of these values also read with `@AT_x` through a two-link abstract_origin -> specification chain (must equal the attribute read where it is stored)",
         "samples": [], "model_classes": hist,
         "traces_validated_against_impl": evaluations, "violations_by_kind": viol,
     })
